@@ -30,13 +30,15 @@ Inductive item :=
 Inductive level :=
 | LConn      (* TCPConn.Send / TCPConn.Receive on a scripted net.Conn; the harness stops at the first transport error *)
 | LRouter    (* Router.handleConn on a scripted net.Conn *)
-| LTcp.      (* two Routers over loopback TCP through the re-chunking proxy, incl. identity exchange *)
+| LTcp       (* two Routers over loopback TCP through the re-chunking proxy, incl. identity exchange *)
+| LSend.     (* the sending side only: the receiving side of the scenario could not be set up *)
 
 Inductive cev :=
 | CMsg (k : nat) (size : N)  (* envelope, nil error: value = pool[k], Envelope.Size *)
 | CBad (size : N)            (* envelope + Unmarshal error *)
 | CTooBig                    (* nil envelope, error outside ErrTimeout/ErrClosed/ErrEOF/ErrUnknown *)
-| CEnd.                      (* nil envelope, one of those four *)
+| CEnd                       (* nil envelope, one of those four *)
+| COther.                    (* nil envelope and an error of no known class *)
 
 Inductive dobs := DOValue (k : nat) | DOError | DOPanic.
 
@@ -71,15 +73,18 @@ Inductive case :=
           (evs : list cev)         (* OBSERVED at LConn: results of Receive *)
           (delivered : list nat)   (* OBSERVED at LRouter/LTcp: values handed to the processors *)
           (closed : bool)          (* OBSERVED: the receiver dropped the connection on its own *)
-          (valeq : bool)           (* OBSERVED: every delivered value deep-equals (Go) the value sent, same type, MsgType = its id *)
+          (valeq : bool)           (* OBSERVED: every delivered value deep-equals (Go) the value sent, same dynamic type *)
+          (tyeq : bool)            (* OBSERVED: every envelope's MsgType is the type id of the value it carries *)
           (crash : bool)           (* OBSERVED: a panic *)
-| CDecode (pool : list pentry) (k : nat) (obs : dobs) (valeq : bool)   (* network.Unmarshal(pool[k]) *)
+          (hung : bool)            (* OBSERVED: the receiver neither finished the stream nor waits for input
+                                      (no end within the deadline / a Receive loop that does not end) *)
+| CDecode (pool : list pentry) (k : nat) (obs : dobs) (valeq tyeq : bool)   (* network.Unmarshal(pool[k]) *)
 | CLocal (pool : list pentry) (items : list nat) (sends : list bool)
-         (delivered : list nat) (valeq crash : bool)                   (* LocalRouter pair *)
+         (delivered : list nat) (valeq tyeq crash : bool)              (* LocalRouter pair *)
 | CConc (pool : list pentry) (senders : list (list nat)) (sends : list bool)
         (limit : N)
         (owire : option (list chunk))   (* OBSERVED (scripted connection only): the bytes on the wire *)
-        (delivered : list nat) (valeq crash : bool).                   (* goroutines sending on ONE connection *)
+        (delivered : list nat) (valeq tyeq crash : bool).              (* goroutines sending on ONE connection *)
 
 (* ---- the codec table ------------------------------------------------------ *)
 
@@ -178,6 +183,7 @@ Definition cev_eqb (a b : cev) : bool :=
   | CBad s, CBad s' => (s =? s')%N
   | CTooBig, CTooBig => true
   | CEnd, CEnd => true
+  | COther, COther => true
   | _, _ => false
   end.
 
@@ -282,11 +288,11 @@ Definition conc_agree (pool : list pentry) (senders : list (list nat)) (limit : 
 
 Definition agree (c : case) : bool :=
   match c with
-  | CStream lv limit ident pool items cuts wire sends evs delivered closed _ crash =>
+  | CStream lv limit ident pool items cuts wire sends evs delivered closed _ _ crash hung =>
       let pb := pool_bytes pool in
       let w := expand pb wire in
       let segs := cut_segs cuts w in
-      negb crash &&
+      negb crash && negb hung &&
       bytes_eqb w (model_wire pb items) &&           (* sender: sendRaw wrote what [send_raw] says *)
       forallb (fun b => b) sends &&                   (* every Send reported success *)
       match lv with
@@ -297,12 +303,13 @@ Definition agree (c : case) : bool :=
       | LTcp =>
           let (d, cl) := model_tcp pool pb ident limit segs in
           nats_eqb delivered d && Bool.eqb closed cl
+      | LSend => true
       end
-  | CDecode pool k obs _ => dobs_eqb obs (model_decode pool (pool_bytes pool) k)
-  | CLocal pool items sends delivered _ crash =>
+  | CDecode pool k obs _ _ => dobs_eqb obs (model_decode pool (pool_bytes pool) k)
+  | CLocal pool items sends delivered _ _ crash =>
       negb crash && forallb (fun b => b) sends &&
       nats_eqb delivered (model_local pool (pool_bytes pool) items)
-  | CConc pool senders sends limit owire delivered _ crash =>
+  | CConc pool senders sends limit owire delivered _ _ crash =>
       negb crash && forallb (fun b => b) sends && conc_agree pool senders limit owire delivered
   end.
 
@@ -377,7 +384,10 @@ Definition wire_okb (expected d : list nat) (closed : bool) : bool :=
    4 a delivered value is not equal to the value sent (Go-level deep equality, type, type id)
    5 a crash (panic) in the receiver or the decoder
    6 the decoder returned a value for bytes that do not form a valid message
-   7 the decoder refused or altered a valid message *)
+   7 the decoder refused or altered a valid message
+   8 a Send of a registered value returned an error (the harness never closes
+     the sending side while it sends)
+   9 an envelope's MsgType is not the type id of the value it carries *)
 Definition stream_clauses (cl : list icls) (d : list nat) (closed : bool) : list nat :=
   let e_all := legit_all cl in
   let e_pre := legit_pre cl in
@@ -393,9 +403,26 @@ Definition conn_delivered (evs : list cev) : list nat :=
 Definition conn_closed (evs : list cev) : bool :=
   existsb (fun e => match e with CTooBig => true | _ => false end) evs.
 
+(* a message whose Send returned an error was not sent: it is not expected at
+   the receiver (the error itself is clause 8).  [sends] has one flag per IMsg
+   in order; missing flags (the sender crashed) count as sent *)
+Fixpoint drop_failed (items : list item) (sends : list bool) : list item :=
+  match items with
+  | [] => []
+  | IMsg k :: r =>
+      match sends with
+      | false :: s' => drop_failed r s'
+      | true :: s' => IMsg k :: drop_failed r s'
+      | [] => IMsg k :: r
+      end
+  | it :: r => it :: drop_failed r sends
+  end.
+
+Definition all_true (l : list bool) : bool := forallb (fun b => b) l.
+
 Definition check (c : case) : list nat :=
   match c with
-  | CStream lv limit ident pool items cuts wire sends evs delivered closed valeq crash =>
+  | CStream lv limit ident pool items cuts wire sends evs delivered closed valeq tyeq crash hung =>
       let pb := pool_bytes pool in
       let d := match lv with LConn => conn_delivered evs | _ => delivered end in
       let cls := match lv with LConn => conn_closed evs | _ => closed end in
@@ -408,29 +435,31 @@ Definition check (c : case) : list nat :=
                               end
                     | _ => Some items
                     end in
-      clause 5 (negb crash) ++ clause 4 valeq ++
-      match items' with
-      | None => []
-      | Some its => stream_clauses (map (classify limit pool pb) its) d cls
+      clause 5 (negb crash) ++ clause 4 valeq ++ clause 9 tyeq ++ clause 8 (all_true sends) ++
+      match lv, items' with
+      | LSend, _ => []
+      | _, None => []
+      | _, Some its => stream_clauses (map (classify limit pool pb) (drop_failed its sends)) d cls
       end
-  | CDecode pool k obs valeq =>
+  | CDecode pool k obs valeq tyeq =>
       let valid := match nth_error pool k with
                    | Some (PE _ true (DVal j)) => Some j
                    | _ => None
                    end in
       match obs, valid with
       | DOPanic, _ => [5]
-      | DOValue j', Some j => clause 7 (j =? j') ++ clause 4 valeq
+      | DOValue j', Some j => clause 7 (j =? j') ++ clause 4 valeq ++ clause 9 tyeq
       | DOValue _, None => [6]
       | DOError, Some _ => [7]
       | DOError, None => []
       end
-  | CLocal pool items sends delivered valeq crash =>
+  | CLocal pool items sends delivered valeq tyeq crash =>
       let pb := pool_bytes pool in
-      let cl := map (fun k => classify 4294967295%N pool pb (IMsg k)) items in
-      clause 5 (negb crash) ++ clause 4 valeq ++ clause 1 (nats_eqb delivered (legit_all cl))
-  | CConc pool senders sends _ _ delivered valeq crash =>
-      clause 5 (negb crash) ++ clause 4 valeq ++
+      let cl := map (classify 4294967295%N pool pb) (drop_failed (map IMsg items) sends) in
+      clause 5 (negb crash) ++ clause 4 valeq ++ clause 9 tyeq ++ clause 8 (all_true sends) ++
+      clause 1 (nats_eqb delivered (legit_all cl))
+  | CConc pool senders sends _ _ delivered valeq tyeq crash =>
+      clause 5 (negb crash) ++ clause 4 valeq ++ clause 9 tyeq ++ clause 8 (all_true sends) ++
       clause 1 (is_merge delivered (conc_expected pool senders))
   end.
 
